@@ -87,3 +87,21 @@ def check(case, ctx):
                 break
     tw = ctx.call("total_weight", m.total_weight)
     ctx.eq("total_weight", M, tw, autoref.total(A), what="total")
+
+    # ---- a derived machine is an ordinary machine: extend it, then query it (never queried before)
+    for dname, mk in (("epsremove", lambda: lib_wfsa(M, c, case["cls"]).epsremove), ("reverse", lambda: lib_wfsa(M, c, case["cls"]).reverse), ("renumber", lambda: lib_wfsa(M, c, case["cls"]).renumber)):
+        d = ctx.call("derived:" + dname, mk)
+        if isinstance(d, LibRaised) or not d.states:
+            continue
+        qs = sorted(d.states, key=repr)
+        a0 = gen.all_strings(c.get("alphabet", ["a", "b"]), 1)[1][0]
+        w = M.to_lib(M.parse("1" if c["regime"] in ("BOOL",) else "0" if c["regime"] == "MP" else "1/2" if c["regime"] == "MT" else "1/16"))  # 3/4 + 2/16 < 1: still convergent
+        ctx.call("derived.extend", d.add_arc, qs[0], "", qs[-1], w)
+        ctx.call("derived.extend", d.add_arc, qs[-1], a0, qs[0], w)
+        Wd = ctx.call("derived.read", lambda: autoref.Weights(RA.from_lib(M, d)))
+        if isinstance(Wd, LibRaised):
+            continue
+        for xs in strings[:15]:
+            have = ctx.call(f"derived:{dname}.call", d, xs)
+            if not ctx.eq(f"derived:{dname}.call", M, have, Wd(xs), what=f"{dname} extended by two arcs, xs={xs}"):
+                break
